@@ -1244,6 +1244,58 @@ func clockFamily(r *hx.Run, a *alphabet) {
 		}
 	}
 	r.Extra["clock_histories"] = n
+
+	// boundary instants (frozen clock, exact): just before / after the next-update instant of the base and of
+	// the delta CRL. "Returned only while neither CRL has passed its next-update time; afterwards a miss":
+	// one second after is a miss, one second before is a hit; the instant itself is recorded, not judged.
+	defer timeshim.Unfreeze()
+	nb := 0
+	for _, name := range []string{"base-fresh", "base+delta-fresh", "base-fresh+delta-expired", "base-expired+delta-fresh"} {
+		b := a.bundleByName(name)
+		root := filepath.Join(a.scratch, "clock-boundary", name, "cache")
+		timeshim.Freeze(time.Date(2020, 6, 1, 0, 0, 0, 0, time.UTC)) // before every next-update of the alphabet
+		c, err := crl.NewFileCache(root)
+		if err != nil {
+			r.Infra("clock boundary: %v", err)
+			return
+		}
+		if err := c.Set(context.Background(), "http://h/boundary", b.B); err != nil {
+			r.Violation("clock/set-failed", err.Error(), clockCase{"clock-boundary", name, "boundary", nil})
+			continue
+		}
+		edges := []time.Time{b.B.BaseCRL.NextUpdate}
+		if b.B.DeltaCRL != nil {
+			edges = append(edges, b.B.DeltaCRL.NextUpdate)
+		}
+		for _, edge := range edges {
+			for _, d := range []time.Duration{-time.Hour, -time.Minute, -time.Second, 0, time.Second, time.Minute, 5*time.Minute - time.Second, 5*time.Minute + time.Second, time.Hour, 25 * time.Hour} {
+				at := edge.Add(d)
+				timeshim.Freeze(at)
+				nb++
+				r.Eval(1)
+				got, gerr := c.Get(context.Background(), "http://h/boundary")
+				want := !at.After(b.B.BaseCRL.NextUpdate) && (b.B.DeltaCRL == nil || !at.After(b.B.DeltaCRL.NextUpdate))
+				exact := at.Equal(b.B.BaseCRL.NextUpdate) || (b.B.DeltaCRL != nil && at.Equal(b.B.DeltaCRL.NextUpdate))
+				where := fmt.Sprintf("Get at next-update%+v (clock frozen at %s) of bundle %s", d, at.Format(time.RFC3339), name)
+				switch {
+				case exact:
+					r.Outcome(fmt.Sprintf("clock-boundary:at-the-next-update-instant:returned=%v(not judged)", gerr == nil))
+				case want && (gerr != nil || got == nil):
+					r.Violation("clock/fresh-entry-not-returned:boundary", fmt.Sprintf("%s: neither CRL has passed its next-update time, got %v", where, gerr), clockCase{"clock-boundary", name, d.String(), nil})
+				case !want && gerr == nil:
+					r.Violation("clock/expired-bundle-returned:boundary", where+": a CRL has passed its next-update time, yet the bundle was returned", clockCase{"clock-boundary", name, d.String(), nil})
+				case !want && !errors.Is(gerr, corecrl.ErrCacheMiss):
+					r.Violation("clock/expired-entry-not-a-miss:boundary", fmt.Sprintf("%s: got %v", where, gerr), clockCase{"clock-boundary", name, d.String(), nil})
+				default:
+					r.Outcome(fmt.Sprintf("clock-boundary:fresh=%v", want))
+					r.Nontrivial(fmt.Sprintf("clockb|%s|%v|%v", name, edge, d))
+				}
+			}
+		}
+		timeshim.Unfreeze()
+		_ = os.RemoveAll(filepath.Dir(root))
+	}
+	r.Extra["clock_boundary_reads"] = nb
 }
 
 func main() {
@@ -1261,6 +1313,7 @@ func main() {
 	if a == nil {
 		r.Finish()
 	}
+	instanceFamily(r, a) // instances.go: two-instance / external-change histories (replays its own cases)
 	if r.Replay != "" {
 		replay(r, a)
 		r.Finish()
